@@ -346,6 +346,187 @@ macro_rules! soa_suite {
     }};
 }
 
+/// transparent collections whose alpha has a different element type than the colour (`Alpha<Color<Vec<f32>>, Vec<u16>>`):
+/// the Vec-like methods that exist for them (with_capacity, push, pop, clear, drain, get, get_mut) against a model vector;
+/// and collections whose components were given different lengths through the public fields: `get` / `get_mut` answer
+/// `None` exactly when one of the component lookups fails, and never panic.
+/// by-value items of the mixed-alpha collections. Implemented for the transparent item *and* for the bare colour: if the
+/// Vec-like methods of `Alpha<Color<Vec<T>>, Vec<A>>` ever stop applying for A != T, method resolution falls through
+/// `DerefMut` to the colour's own push / pop / drain, which still compiles; the monitor must then see the alpha vector
+/// fall behind at run time instead of failing to build.
+trait MixedItem {
+    fn to_m(self) -> ([f32; 3], u16);
+    fn from_m(e: ([f32; 3], u16)) -> Self;
+}
+impl MixedItem for Alpha<Rgb<St, f32>, u16> {
+    fn to_m(self) -> ([f32; 3], u16) {
+        ([self.color.red, self.color.green, self.color.blue], self.alpha)
+    }
+    fn from_m(e: ([f32; 3], u16)) -> Self {
+        Alpha { color: Rgb::new(e.0[0], e.0[1], e.0[2]), alpha: e.1 }
+    }
+}
+impl MixedItem for Rgb<St, f32> {
+    fn to_m(self) -> ([f32; 3], u16) {
+        ([self.red, self.green, self.blue], 0xffff)
+    }
+    fn from_m(e: ([f32; 3], u16)) -> Self {
+        Rgb::new(e.0[0], e.0[1], e.0[2])
+    }
+}
+impl MixedItem for Alpha<Hsv<St, f32>, u16> {
+    fn to_m(self) -> ([f32; 3], u16) {
+        ([self.color.hue.into_inner(), self.color.saturation, self.color.value], self.alpha)
+    }
+    fn from_m(e: ([f32; 3], u16)) -> Self {
+        Alpha { color: Hsv::new(e.0[0], e.0[1], e.0[2]), alpha: e.1 }
+    }
+}
+impl MixedItem for Hsv<St, f32> {
+    fn to_m(self) -> ([f32; 3], u16) {
+        ([self.hue.into_inner(), self.saturation, self.value], 0xffff)
+    }
+    fn from_m(e: ([f32; 3], u16)) -> Self {
+        Hsv::new(e.0[0], e.0[1], e.0[2])
+    }
+}
+
+macro_rules! mixed_alpha_suite {
+    ($mon:expr, $ctx:expr, $name:expr, $S:ty, $lens:expr, $readref:expr, $write:expr, $parts:expr) => {{
+        #[inline(never)]
+        fn run(mon: &mut Monitor, ctx: &Ctx) {
+            let tyname: &'static str = $name;
+            type S = $S;
+            type M = ([f32; 3], u16);
+            if ctx.replaying() || (ctx.nshards > 1 && pvmon::rng::hash_str(tyname) % ctx.nshards != ctx.shard) {
+                return;
+            }
+            let lean = ctx.mode != "native" && ctx.mode != "native-dev";
+            let nhist = if ctx.is_miri() { ctx.n(10, 150) } else { ctx.n(3000, 200_000) };
+            let mut rng = ctx.rng(&format!("mixed{}", tyname), 0);
+            mon.count("types");
+            let key = |e: &M| -> Vec<u32> { vec![e.0[0].to_bits(), e.0[1].to_bits(), e.0[2].to_bits(), e.1 as u32] };
+            for hno in 0..nhist {
+                let start_state = rng.0;
+                let mut h = Hist { m: &mut *mon, ty: tyname, ops: Vec::new(), start_state, failed: false, lean };
+                let mut next_id: u32 = 1;
+                let mut fresh = || -> M {
+                    next_id += 1;
+                    ([f(next_id, 0), f(next_id, 1), f(next_id, 2)], (next_id * 7 + 3) as u16)
+                };
+                let mut s: S = ($parts)([0; 4]);
+                let mut model: Vec<M> = Vec::new();
+                let nops = 1 + rng.below(if ctx.is_miri() { 10 } else { 20 });
+                for _ in 0..nops {
+                    let len = model.len();
+                    match rng.below(10) {
+                        0 | 1 | 2 => {
+                            let e = fresh();
+                            h.op(format!("push({:?})", key(&e)));
+                            s.push(MixedItem::from_m(e));
+                            model.push(e);
+                        }
+                        3 => {
+                            h.op("pop".into());
+                            let a: Option<M> = s.pop().map(MixedItem::to_m);
+                            let b = model.pop();
+                            h.check(a.map(|x| key(&x)) == b.map(|x| key(&x)), "mixed_alpha:pop_result", || json!({"soa": a.map(|x| key(&x)), "model": b.map(|x| key(&x))}));
+                        }
+                        4 => {
+                            if rng.chance(0.4) {
+                                h.op("clear".into());
+                                s.clear();
+                                model.clear();
+                            }
+                        }
+                        5 | 6 => {
+                            let a = rng.below(len as u64 + 1) as usize;
+                            let b = a + rng.below((len - a) as u64 + 1) as usize;
+                            let consume = rng.chance(0.6);
+                            h.op(format!("drain({}..{}, consume={})", a, b, consume));
+                            let got: Vec<M> = if consume { s.drain(a..b).map(MixedItem::to_m).collect() } else { drop(s.drain(a..b)); Vec::new() };
+                            let want: Vec<M> = model.drain(a..b).collect();
+                            if consume {
+                                h.check(got.iter().map(|x| key(x)).collect::<Vec<_>>() == want.iter().map(|x| key(x)).collect::<Vec<_>>(), "mixed_alpha:drain_yield", || json!({"soa": got.iter().map(|x| key(x)).collect::<Vec<_>>(), "model": want.iter().map(|x| key(x)).collect::<Vec<_>>()}));
+                            }
+                        }
+                        7 => {
+                            let i = rng.below(len as u64 + 2) as usize;
+                            h.op(format!("get({})", i));
+                            let a: Option<M> = s.get(i).map($readref);
+                            let b = model.get(i).copied();
+                            h.check(a.map(|x| key(&x)) == b.map(|x| key(&x)), "mixed_alpha:get_index", || json!({"soa": a.map(|x| key(&x)), "model": b.map(|x| key(&x))}));
+                        }
+                        8 => {
+                            let i = rng.below(len as u64 + 2) as usize;
+                            let e = fresh();
+                            h.op(format!("get_mut({}) + write", i));
+                            let hit = match s.get_mut(i) {
+                                Some(c) => {
+                                    ($write)(c, e);
+                                    true
+                                }
+                                None => false,
+                            };
+                            h.check(hit == (i < len), "mixed_alpha:get_mut_some_iff_in_range", || json!({"index": i, "len": len, "some": hit}));
+                            if i < len {
+                                model[i] = e;
+                            }
+                        }
+                        _ => {
+                            let a = rng.below(len as u64 + 2) as usize;
+                            let b = rng.below(len as u64 + 2) as usize;
+                            h.op(format!("get({}..{})", a, b));
+                            let got = s.get(a..b).is_some();
+                            let want = model.get(a..b).is_some();
+                            h.check(got == want, "mixed_alpha:get_range_some_iff_valid", || json!({"a": a, "b": b, "len": len, "soa_some": got, "model_some": want}));
+                        }
+                    }
+                    let ls = ($lens)(&s);
+                    let all_eq = ls.iter().all(|l| *l == model.len());
+                    h.check(all_eq, "mixed_alpha:component_lengths", || json!({"component_lens": ls, "model_len": model.len()}));
+                    if all_eq {
+                        let same = (0..model.len()).all(|i| s.get(i).map($readref).map(|x| key(&x)) == Some(key(&model[i])));
+                        h.check(same, "mixed_alpha:state_contents", || json!({"model": model.iter().map(|x| key(x)).collect::<Vec<_>>()}));
+                    }
+                    if h.failed {
+                        break;
+                    }
+                }
+                if !lean {
+                    let hh = h.ops.iter().fold(pvmon::rng::hash_str(tyname), |a, o| pvmon::rng::mix(a, pvmon::rng::hash_str(o)));
+                    h.m.cell(hh);
+                    if hno < 1 {
+                        let ops = h.ops.clone();
+                        h.m.sample(|| json!({"type": tyname, "history": ops}));
+                    }
+                } else {
+                    h.m.cell(pvmon::rng::mix(pvmon::rng::hash_str(tyname), hno));
+                }
+                h.m.count("histories");
+            }
+            // components of different lengths (public fields): get / get_mut are total
+            for case in 0..ctx.n(200, 2000) {
+                let lens: [usize; 4] = [rng.below(5) as usize, rng.below(5) as usize, rng.below(5) as usize, rng.below(5) as usize];
+                let min = *lens.iter().min().unwrap();
+                let mut s: S = ($parts)(lens);
+                for i in 0..6usize {
+                    mon.evals(3);
+                    let r = catch_unwind(AssertUnwindSafe(|| (s.get(i).is_some(), s.get_mut(i).is_some(), s.get(i..i + 1).is_some(), s.get(..i).is_some())));
+                    let want = (i < min, i < min, i + 1 <= min, i <= min);
+                    if r.as_ref().ok() != Some(&want) {
+                        mon.violate(tyname, "mixed_alpha:get_with_unequal_component_lengths", json!({"component_lens": lens.to_vec(), "index": i}), json!(match r { Ok(x) => format!("{:?}", x), Err(_) => "panic".into() }), json!(format!("{:?}", want)), "Some exactly when every component lookup succeeds");
+                    }
+                }
+                if case < 4 {
+                    mon.cell_s(&format!("{}unequal{}", tyname, case));
+                }
+            }
+        }
+        run($mon, $ctx);
+    }};
+}
+
 type St = palette::encoding::Srgb;
 type Wp = palette::white_point::D65;
 fn f(id: u32, k: u32) -> f32 {
@@ -432,6 +613,20 @@ fn main() {
     soa_suite!(&mut m, &ctx, "Alpha<Oklch<Vec<f32>>>", Alpha<Oklch<Vec<f32>>, Vec<f32>>, Alpha<Oklch<f32>, f32>, 4, |i| Alpha { color: Oklch::new(f(i, 0), f(i, 1), f(i, 2)), alpha: f(i, 3) }, |s| vec![s.color.l.len(), s.color.chroma.len(), s.color.hue.iter().len(), s.alpha.len()], |s: Alpha<Oklch<Vec<f32>>, Vec<f32>>| Alpha { color: Oklch::<Box<[f32]>> { l: s.color.l.into_boxed_slice(), chroma: s.color.chroma.into_boxed_slice(), hue: OklabHue::new(s.color.hue.into_inner().into_boxed_slice()) }, alpha: s.alpha.into_boxed_slice() });
     soa_suite!(&mut m, &ctx, "Cam16UcsJmh<Vec<f32>>", cam16::Cam16UcsJmh<Vec<f32>>, cam16::Cam16UcsJmh<f32>, 3, |i| cam16::Cam16UcsJmh::new(f(i, 0), f(i, 1), f(i, 2)), |s| vec![s.lightness.len(), s.colorfulness.len(), s.hue.iter().len()], |s: cam16::Cam16UcsJmh<Vec<f32>>| cam16::Cam16UcsJmh::<Box<[f32]>> { lightness: s.lightness.into_boxed_slice(), colorfulness: s.colorfulness.into_boxed_slice(), hue: Cam16Hue::new(s.hue.into_inner().into_boxed_slice()) });
     soa_suite!(&mut m, &ctx, "Hsluv<D65,Vec<f32>>", Hsluv<Wp, Vec<f32>>, Hsluv<Wp, f32>, 3, |i| Hsluv::new(f(i, 0), f(i, 1), f(i, 2)), |s| vec![s.hue.iter().len(), s.saturation.len(), s.l.len()], |s: Hsluv<Wp, Vec<f32>>| Hsluv::<Wp, Box<[f32]>> { hue: LuvHue::new(s.hue.into_inner().into_boxed_slice()), saturation: s.saturation.into_boxed_slice(), l: s.l.into_boxed_slice(), white_point: PhantomData });
+    mixed_alpha_suite!(
+        &mut m, &ctx, "Alpha<Rgb<Srgb,Vec<f32>>,Vec<u16>>", Alpha<Rgb<St, Vec<f32>>, Vec<u16>>,
+        |s: &Alpha<Rgb<St, Vec<f32>>, Vec<u16>>| vec![s.color.red.len(), s.color.green.len(), s.color.blue.len(), s.alpha.len()],
+        |c: Alpha<Rgb<St, &f32>, &u16>| ([*c.color.red, *c.color.green, *c.color.blue], *c.alpha),
+        |c: Alpha<Rgb<St, &mut f32>, &mut u16>, e: ([f32; 3], u16)| { *c.color.red = e.0[0]; *c.color.green = e.0[1]; *c.color.blue = e.0[2]; *c.alpha = e.1; },
+        |l: [usize; 4]| Alpha { color: Rgb::<St, Vec<f32>> { red: vec![0.5; l[0]], green: vec![0.5; l[1]], blue: vec![0.5; l[2]], standard: PhantomData }, alpha: vec![7u16; l[3]] }
+    );
+    mixed_alpha_suite!(
+        &mut m, &ctx, "Alpha<Hsv<Srgb,Vec<f32>>,Vec<u16>>", Alpha<Hsv<St, Vec<f32>>, Vec<u16>>,
+        |s: &Alpha<Hsv<St, Vec<f32>>, Vec<u16>>| vec![hl(&s.color.hue), s.color.saturation.len(), s.color.value.len(), s.alpha.len()],
+        |c: Alpha<Hsv<St, &f32>, &u16>| ([*c.color.hue.into_inner(), *c.color.saturation, *c.color.value], *c.alpha),
+        |c: Alpha<Hsv<St, &mut f32>, &mut u16>, e: ([f32; 3], u16)| { *c.color.hue.into_inner() = e.0[0]; *c.color.saturation = e.0[1]; *c.color.value = e.0[2]; *c.alpha = e.1; },
+        |l: [usize; 4]| Alpha { color: Hsv::<St, Vec<f32>> { hue: RgbHue::new(vec![0.5; l[0]]), saturation: vec![0.5; l[1]], value: vec![0.5; l[2]], standard: PhantomData }, alpha: vec![7u16; l[3]] }
+    );
     array_containers(&mut m, &ctx);
     report.add(m);
     report.finish();
